@@ -395,6 +395,117 @@ def install_skel(tr, M):
                        'Definition rely_%s (t : Z) : bool :=\n  %s.' % (suffix, ' || '.join('(t =? %s)' % k for k, v in rely.items() if v) or 'false')]
                 return '\n'.join(out), M.span_hash(s, f)
             tr.item(F, 'skel_' + suffix, mk)
+    # ---------------------------------------------------------------- pool flow of J1939_22.send_pgn (C10/C02)
+    def flow_of(fn, loop_table=None):
+        """fn: a FunctionDef (whole body) or, with loop_table, the For loop over list(self.<loop_table>) of the job pass: there a
+        removal of the session from the table plays the part of taking a number (it must be followed by a put on the same
+        path) and continue/break/falling off the end of the body leave the iteration"""
+        GETS = ('__get_bam_session', '__get_rts_cts_session')
+        PUTS = ('__put_bam_session', '__put_rts_cts_session', '__put_session')
+
+        def selfcall(x, names):
+            return (isinstance(x, ast.Call) and isinstance(x.func, ast.Attribute) and isinstance(x.func.value, ast.Name)
+                    and x.func.value.id == 'self' and x.func.attr in names)
+
+        def removal(x):
+            if loop_table is None:
+                return False
+            if isinstance(x, ast.Delete):
+                return any(isinstance(tg, ast.Subscript) and shared(tg.value) == loop_table for tg in x.targets)
+            return (isinstance(x, ast.Call) and isinstance(x.func, ast.Attribute) and x.func.attr in ('pop', 'popitem', 'clear')
+                    and shared(x.func.value) == loop_table)
+
+        def mentions(node):
+            for x in ast.walk(node):
+                if isinstance(x, (ast.Return, ast.Raise)) or selfcall(x, GETS) or selfcall(x, PUTS) or removal(x):
+                    return True
+                if loop_table is not None and isinstance(x, (ast.Continue, ast.Break)) and x is not node:
+                    pass
+                if isinstance(x, ast.Subscript) and isinstance(x.ctx, ast.Store) and shared(x.value) == '_snd_buffer':
+                    return True
+            return False
+
+        def fseq(items):
+            items = [i for i in items if i != 'FSkip']
+            if not items:
+                return 'FSkip'
+            if len(items) == 1:
+                return items[0]
+            return '(FSeq %s %s)' % (items[0], fseq(items[1:]))
+
+        def stmts(body):
+            out = []
+            i = 0
+            while i < len(body):
+                st = body[i]
+                if isinstance(st, ast.Assign) and selfcall(st.value, GETS):
+                    if not (len(st.targets) == 1 and isinstance(st.targets[0], ast.Name) and i + 1 < len(body)):
+                        raise Unsupported('session number not bound to a name')
+                    var = st.targets[0].id
+                    nxt = body[i + 1]
+                    if not (isinstance(nxt, ast.If) and ast.unparse(nxt.test) in ('%s == None' % var, '%s is None' % var) and not nxt.orelse):
+                        raise Unsupported('__get_*_session() not followed by `if %s == None:`' % var)
+                    out.append('(FGet %s)' % fseq(stmts(nxt.body)))
+                    i += 2
+                    continue
+                if isinstance(st, ast.If):
+                    if any(selfcall(x, GETS) for x in ast.walk(st.test)):
+                        raise Unsupported('__get_*_session() inside a condition')
+                    out.append('(FAlt %s %s)' % (fseq(stmts(st.body)), fseq(stmts(st.orelse))))
+                elif isinstance(st, (ast.While, ast.For, ast.Try, ast.With)):
+                    if mentions(st):
+                        raise Unsupported('pool operation, session store, return or raise inside a loop/try/with of send_pgn')
+                    out.append('FSkip')
+                elif isinstance(st, ast.Return):
+                    out.append('FRet')
+                elif isinstance(st, ast.Raise):
+                    out.append('FRaise')
+                elif loop_table is not None and isinstance(st, (ast.Continue, ast.Break)):
+                    out.append('FRet')
+                elif loop_table is not None and any(removal(x) for x in ast.walk(st)):
+                    if any(selfcall(x, PUTS) for x in ast.walk(st)):
+                        raise Unsupported('removal and put in one statement')
+                    out.append('(FGet FRet)')
+                else:
+                    if any(selfcall(x, GETS) for x in ast.walk(st)):
+                        raise Unsupported('__get_*_session() in an unexpected position: ' + ast.unparse(st)[:60])
+                    if any(selfcall(x, PUTS) for x in ast.walk(st)):
+                        out.append('FPut')
+                    elif any(isinstance(x, ast.Subscript) and isinstance(x.ctx, ast.Store) and shared(x.value) == '_snd_buffer' for x in ast.walk(st)):
+                        out.append('FStore')
+                    else:
+                        out.append('FSkip')
+                i += 1
+            return out
+        return fseq(stmts(fn.body))
+
+    def flow_items():
+        def mk():
+            t, s = tr.trees['j1939_22'], tr.src['j1939_22']
+            f = find(t, 'J1939_22', 'send_pgn')
+            return 'Definition flow_send22 : fl :=\n  %s.' % flow_of(f), M.span_hash(s, f)
+        tr.item('SkelGen', 'flow_send22', mk)
+
+        def mkjob():
+            t, s = tr.trees['j1939_22'], tr.src['j1939_22']
+            f = find(t, 'J1939_22', 'async_job_thread')
+            loops = [st for st in f.body if isinstance(st, ast.For) and isinstance(st.iter, ast.Call) and getattr(st.iter.func, 'id', None) == 'list'
+                     and st.iter.args and shared(st.iter.args[0]) == '_snd_buffer']
+            if len(loops) != 1:
+                raise Unsupported('expected exactly one loop over list(self._snd_buffer) in async_job_thread')
+            # outside that loop the job pass must not remove originator sessions nor touch the pools
+            for st in f.body:
+                if st is loops[0]:
+                    continue
+                for x in ast.walk(st):
+                    if isinstance(x, ast.Delete) and any(isinstance(tg, ast.Subscript) and shared(tg.value) == '_snd_buffer' for tg in x.targets):
+                        raise Unsupported('originator session removed outside the loop over the send table')
+                    if isinstance(x, ast.Call) and isinstance(x.func, ast.Attribute) and x.func.attr.startswith(('__put_', '__get_')):
+                        raise Unsupported('pool operation outside the loop over the send table')
+            body = ast.FunctionDef(name='_', args=None, body=loops[0].body, decorator_list=[])
+            return 'Definition flow_job22 : fl :=\n  (FSeq %s FRet).' % flow_of(body, loop_table='_snd_buffer'), M.span_hash(s, f)
+        tr.item('SkelGen', 'flow_job22', mkjob)
+    tr.flow_items = flow_items
     tr.skel_items = skel_items
 
 
